@@ -397,6 +397,46 @@ def run_forked(args, trace):
     return pid, st
 
 
+def force_as_run(run, rng, root):
+    """--force-as: files whose suffix says nothing (.dat) read with the named reader, for every utterance of the run."""
+    import torch
+    nprng = np.random.RandomState(rng.randint(0, 2 ** 31 - 1))
+    for kind in ("npy", "sph", "wav"):
+        d = os.path.join(root, "force_" + kind)
+        os.makedirs(d)
+        sigs, lines = {}, []
+        for k, n in enumerate((900, 1300, 705)):
+            uid = "f%d" % k
+            x = nprng.randint(-3000, 3000, size=n).astype(np.int16)
+            p = os.path.join(d, uid + ".dat")
+            if kind == "npy":
+                with open(p, "wb") as f:
+                    np.save(f, x.astype(np.float32))
+            elif kind == "sph":
+                open(p, "wb").write(sph_util.pcm_file(x))
+            else:
+                write_wav(p + ".wav", x)
+                os.rename(p + ".wav", p)
+            sigs[uid] = x.astype(np.float64)
+            lines.append("%s %s" % (uid, p))
+        mp = os.path.join(d, "map")
+        open(mp, "w").write("\n".join(lines) + "\n")
+        out = os.path.join(d, "out")
+        pid, st = run_forked([mp, config_arg(COMPUTER, "inline", d, "comp"), out, "--force-as=" + kind, "--num-workers=0"],
+                             os.path.join(d, "trace.ndjson"))
+        run.evaluations += 1
+        if not (os.WIFEXITED(st) and os.WEXITSTATUS(st) == 0):
+            run.violation({"kind": "torch_tool_failed", "status": st, "what": "--force-as=%s on .dat files" % kind})
+            continue
+        comp = alias.alias_factory_subclass_from_arg(compute.FrameComputer, json.loads(json.dumps(COMPUTER)))
+        for uid, x in sigs.items():
+            t = c10.load_tensor(os.path.join(out, uid + ".pt"))
+            f = comp.compute_full(x).astype(np.float32)
+            if t is None or tuple(t.shape) != f.shape or not np.allclose(t.numpy(), f, rtol=2e-4, atol=2e-4):
+                run.violation({"kind": "torch_stored_features_differ_from_library_pipeline", "utt": uid, "container": kind + " behind --force-as",
+                               "stored_shape": None if t is None else list(t.shape), "library_shape": list(f.shape)})
+
+
 def repository_tests(run, traces):
     """The repository's own tests/test_command_line.py run with the hooks on.  Every tool run they make logs the
     pipeline it was asked for (`config` event: pre-/post-processor classes, computer or raw column); the stage events
@@ -460,6 +500,7 @@ def run(tier, seed):
         # and --seed=0, which is as fixed as any other seed
         for k, comp in enumerate(COMPUTERS2):
             torch_runs(run, tier, rng, root, traces, computer=comp, seed=0, combos=[(2, 0, "inline"), (0, 1, "yaml")], tag=str(k))
+        force_as_run(run, rng, root)
         repository_tests(run, traces)
     finally:
         shutil.rmtree(root, ignore_errors=True)
